@@ -2,10 +2,10 @@ SPECIFICATION GenSpec
 CONSTANTS
   RecordHist = TRUE
   TestMods = {"coinswap", "farm", "htlc", "service", "token"}
-  KCoinswap = 2
-  KFarm = 2
-  KHtlc = 1
-  KService = 1
-  KToken = 2
+  KCoinswap = 4
+  KFarm = 3
+  KHtlc = 2
+  KService = 2
+  KToken = 3
 CONSTRAINT GenConstraint
 CHECK_DEADLOCK FALSE
